@@ -113,9 +113,21 @@ def get_ctx() -> Ctx | None:
     return getattr(_tls, "ctx", None)
 
 
+_LINE_STARTS: dict[int, frozenset] = {}      # id(code) -> bytecode offsets at which a source line begins
+DROPPED: dict[tuple[int, int], int] = {}     # (file index, line) -> mid-line events ignored (this process)
+
+
 def _callback(code: types.CodeType, line: int):
     ctx = getattr(_tls, "ctx", None)
     if ctx is None or not ctx.active:
+        return None
+    if sys._getframe(1).f_lasti not in _LINE_STARTS[id(code)]:
+        # CPython also reports a line when execution comes back to it in the middle (after the branches of a
+        # conditional expression, at the head of a loop) -- and whether it does depends on whether that code has run
+        # before in this process (observed: point.py `join(a if c else b, p)`, 1 event cold, 2 warm). A logical
+        # clock must not depend on the interpreter's warm-up state: only the instruction that BEGINS a line counts.
+        k_ = (_code_file[id(code)], line)
+        DROPPED[k_] = DROPPED.get(k_, 0) + 1
         return None
     ctx.n = n = ctx.n + 1
     key = (_code_file[id(code)], line)
@@ -294,6 +306,12 @@ def install() -> None:
             continue
         _code_file[id(c)] = fidx
         _codes.append(c)
+        starts, prev_ln = set(), None
+        for (_s, _e, ln) in c.co_lines():
+            if ln is not None and ln != prev_ln:
+                starts.add(_s)
+            prev_ln = ln
+        _LINE_STARTS[id(c)] = frozenset(starts)
         for (_s, _e, ln) in c.co_lines():
             if ln is not None and c.co_name != "<module>":
                 EXECUTABLE_LINES.add((fidx, ln))
@@ -303,6 +321,21 @@ def install() -> None:
         mon.set_local_events(TOOL, c, mon.events.LINE)
     mon.register_callback(TOOL, mon.events.LINE, _callback)
     _installed = True
+
+
+class paused:
+    """No LINE events inside the block (bulk, fault-free work such as the exhaustive tables: the per-line callback
+    costs ~10x on code that calls a Python function per array entry). Only for phases without clients or faults."""
+
+    def __enter__(self):
+        if _installed:
+            mon.register_callback(TOOL, mon.events.LINE, None)
+        return self
+
+    def __exit__(self, *exc):
+        if _installed:
+            mon.register_callback(TOOL, mon.events.LINE, _callback)
+        return False
 
 
 def site_str(key) -> str:
